@@ -32,16 +32,20 @@ CONSTANTS MaxSteps,
 
 Files == {"entry", "m1", "m2"}
 Variants(f) ==
-  CASE f = "entry" -> {"e1", "e2", "ebroken"}               \* e1 / e2: different local literal; both import m1
-    [] f = "m1"    -> {"a1", "a2", "a3imp", "a4imp", "aunres", "abroken"}   \* a3imp / a4imp import from m2
+  CASE f = "entry" -> {"e1", "e2", "e3n", "e4v", "ebroken"}   \* e1 / e2: different local literal; all import m1;
+                                                            \* e3n also imports m2 directly; e4v uses a VALUE that m1 re-exports with `export *`
+    [] f = "m1"    -> {"a1", "a2", "a3imp", "a4imp", "astar", "aunres", "abroken"}   \* a3imp / a4imp import from m2; astar: export * from m2
     [] f = "m2"    -> {"b1", "b2", "bbroken"}
 Missing == "missing"                                         \* the file does not exist (only m2 comes and goes)
 Parses(c) == c \notin {"ebroken", "abroken", "bbroken"}
-Imports(f, c) == CASE f = "entry" -> {"m1"}
-                   [] f = "m1" -> IF c \in {"a3imp", "a4imp"} THEN {"m2"} ELSE {}
+Imports(f, c) == CASE f = "entry" -> IF c = "e3n" THEN {"m1", "m2"} ELSE {"m1"}
+                   [] f = "m1" -> IF c \in {"a3imp", "a4imp", "astar"} THEN {"m2"} ELSE {}
                    [] OTHER -> {}
 \* module resolution looks at the disk: an import of a file that does not exist does not resolve
 Resolved(f, c, dk) == {g \in Imports(f, c) : dk[g] # Missing}
+\* which of its imports a build follows: `export * from "./m2"` (astar) is only searched for a name that m1 does not declare
+\* itself, i.e. when the entry asks for the value KV (e4v); explicit imports are followed always.  ec = the entry content in use.
+Needed(f, c, ec) == IF f = "m1" /\ c = "astar" /\ ec # "e4v" THEN {} ELSE Imports(f, c)
 
 VARIABLES disk, cache, bound, watched, out, built, steps
 vars == <<disk, cache, bound, watched, out, built, steps>>
@@ -51,22 +55,26 @@ NoOut == [kind |-> "none", view |-> <<>>]
 \* ------------------------------------------------------------------ one build
 \* Load the files reachable from the entry through imports.  Returns [cache, watched, view] where
 \* view[f] = the variant actually used for f, or "unreadable" (not cached and does not parse).
-RECURSIVE Load(_, _, _, _, _, _)
+RECURSIVE LoadE(_, _, _, _, _, _, _)
 \* view[f] = [c |-> content used, b |-> imports that are followed]
-Load(todo, ca, bo, wa, view, dk) ==
+LoadE(todo, ca, bo, wa, view, dk, ec) ==
   IF todo = {} THEN [cache |-> ca, bound |-> bo, watched |-> wa, view |-> view]
   ELSE LET f == CHOOSE f \in todo : TRUE IN
-       IF f \in DOMAIN view THEN Load(todo \ {f}, ca, bo, wa, view, dk)
+       IF f \in DOMAIN view THEN LoadE(todo \ {f}, ca, bo, wa, view, dk, ec)
        ELSE IF ca[f] # "none"
-            THEN Load((todo \ {f}) \cup bo[f], ca, bo, wa, (f :> [c |-> ca[f], b |-> bo[f]]) @@ view, dk)
+            THEN LET fol == bo[f] \cap Needed(f, ca[f], ec) IN
+                 LoadE((todo \ {f}) \cup fol, ca, bo, wa, (f :> [c |-> ca[f], b |-> fol]) @@ view, dk, ec)
             ELSE \* read_file_content + parse_and_bind
                  IF dk[f] = Missing
-                 THEN Load(todo \ {f}, ca, bo, wa, (f :> [c |-> "unreadable", b |-> {}]) @@ view, dk)    \* nothing to read, nothing to watch
+                 THEN LoadE(todo \ {f}, ca, bo, wa, (f :> [c |-> "unreadable", b |-> {}]) @@ view, dk, ec)    \* nothing to read, nothing to watch
                  ELSE IF Parses(dk[f])
-                 THEN LET r == Resolved(f, dk[f], dk) IN
-                      Load((todo \ {f}) \cup r, [ca EXCEPT ![f] = dk[f]], [bo EXCEPT ![f] = r], wa \cup {f},
-                           (f :> [c |-> dk[f], b |-> r]) @@ view, dk)
-                 ELSE Load(todo \ {f}, ca, bo, wa \cup {f}, (f :> [c |-> "unreadable", b |-> {}]) @@ view, dk)
+                 THEN LET r == Resolved(f, dk[f], dk)  fol == r \cap Needed(f, dk[f], ec) IN
+                      LoadE((todo \ {f}) \cup fol, [ca EXCEPT ![f] = dk[f]], [bo EXCEPT ![f] = r], wa \cup {f},
+                            (f :> [c |-> dk[f], b |-> fol]) @@ view, dk, ec)
+                 ELSE LoadE(todo \ {f}, ca, bo, wa \cup {f}, (f :> [c |-> "unreadable", b |-> {}]) @@ view, dk, ec)
+\* the entry content a build uses: the cached module, else the text on disk
+EntryInUse(ca, dk) == IF ca["entry"] # "none" THEN ca["entry"] ELSE dk["entry"]
+Load(todo, ca, bo, wa, view, dk) == LoadE(todo, ca, bo, wa, view, dk, EntryInUse(ca, dk))
 
 \* The observable result is a function of the contents used (the compiler is deterministic: C10)
 Result(view) == [kind |-> "built", view |-> view]
